@@ -7,15 +7,21 @@ PROPERTIES = {
                 explanation="Every unit table entry is compared with an independent SI table in exact rational "
                             "arithmetic; the real to()/comparison methods run over symbolic values for every "
                             "ordered unit pair of every kind and each path's postconditions are discharged by z3.",
-                assumptions=[], trusted_base=["pycv/spec.py L0 SI table (written from the SI definitions)"]),
+                assumptions=[], trusted_base=["pycv/spec.py L0 SI table (written from the SI definitions)"],
+                level_text="Unbounded proof in real arithmetic for all values and, exhaustively, all 607 ordered unit pairs of the 13 kinds: unit tables equal an independent SI table exactly; to() preserves the SI magnitude, copy/in-place agree, there-and-back is the identity; the six comparisons agree with the SI order outside the library's absolute 1e-12 band (inside it: recorded known finding).",
+                level_note="Real arithmetic (rounding not modelled); pi is one exact rational on both sides; the proxy layer and z3 are trusted; the L0 SI table is hand-written from the SI definitions."),
     "C06": dict(modules=["contracts.units"], level="proof", exhaustive=True,
                 explanation="Every ordered pair of operand kinds (13 kinds + int + float) x {+,-,*,/} is dispatched "
                             "by CPython itself on the real classes with symbolic values; defined pairs for every unit "
                             "pair; result kind / SI magnitude / exception class are postconditions discharged by z3.",
-                assumptions=[], trusted_base=["pycv/spec.py dimension table (transcribed from the property text)"]),
+                assumptions=[], trusted_base=["pycv/spec.py dimension table (transcribed from the property text)"],
+                level_text="Unbounded proof in real arithmetic, exhaustive over all 15x15 ordered operand kinds x {+,-,*,/} and all unit pairs of the defined ones: TypeError exactly for pairs outside the dimension table, otherwise the tabled kind with the SI magnitude of the result equal to the sum/difference/product/quotient of the operands' SI magnitudes; (a+b)-b=a and a-b=-(b-a) proved on the real operator sequence.",
+                level_note="Real arithmetic; CPython's own operator dispatch (reflected methods, subclass priority) is executed, not modelled; the dimension table is transcribed from the property statement."),
     "C19": dict(modules=["contracts.units"], level="proof", exhaustive=True,
                 explanation="Class invariant valid(q) + frame condition (operators never mutate operands) are "
                             "postconditions of every constructor/operator/conversion of every unit class; by "
                             "induction on program length every quantity reachable by a straight-line program is valid.",
-                assumptions=[], trusted_base=[]),
+                assumptions=["the induction over straight-line programs is the usual one: every operation's postcondition gives valid results and unchanged operands, hence every reachable object is valid; component-constructor clauses are added by the component contracts"], trusted_base=[],
+                level_text="Class invariant valid(q) (unit in table, sign constraint, all name-mangled copies agree) proved as postcondition of every constructor, operator, unary operator and conversion (copy and in place) of all 13 unit classes for all values and all units, with the frame condition that no operator mutates an operand; ValueError is the only rejection.",
+                level_note="Real arithmetic: floating-point underflow of an in-place conversion (a positive subnormal becoming 0.0) is outside tier R and is reported by the thorough tier's bit-precise search when built."),
 }
